@@ -49,12 +49,12 @@ TOLERANCES = {
 EXHAUSTIVE = {"quick": False, "thorough": False}
 EXHAUSTIVE_PART = "none (sampled)"
 FLOORS = {
-    "quick": {"law.height": 1100, "law.contiguity": 1100, "law.grid": 1100, "law.boundary": 5500, "law.target-mass": 5500, "law.uniform-solid-mass": 4500,
+    "quick": {"refusal.negative-height-of-an-intermediate-block": 4, "law.height": 1100, "law.contiguity": 1100, "law.grid": 1100, "law.boundary": 5500, "law.target-mass": 5500, "law.uniform-solid-mass": 4500,
               "law.stacked": 10000, "law.component-height": 15000, "law.factors": 1100, "law.linkage": 1100, "law.inverse": 120, "law.temperature": 450,
               "hook:AxialExpansionChanger.axiallyExpandAssembly": 1100, "construction.expandColdDimsToHot": 70,
               "law.input-to-hot-mass": 500, "law.input-to-hot-mass.tight": 500, "law.input-to-hot-mass.loose": 6, "law.fluid-density-untouched": 1100,
               "law.inverse-fluid": 1700, "law.target-designation": 5200, "law.unsorted-grid": 85, "thermal.field-at-zero-celsius": 30},
-    "thorough": {"law.height": 13000, "law.contiguity": 13000, "law.grid": 13000, "law.boundary": 65000, "law.target-mass": 65000, "law.uniform-solid-mass": 55000,
+    "thorough": {"refusal.negative-height-of-an-intermediate-block": 60, "law.height": 13000, "law.contiguity": 13000, "law.grid": 13000, "law.boundary": 65000, "law.target-mass": 65000, "law.uniform-solid-mass": 55000,
                  "law.stacked": 130000, "law.component-height": 190000, "law.factors": 13000, "law.linkage": 13000, "law.inverse": 1500, "law.temperature": 5500,
                  "hook:AxialExpansionChanger.axiallyExpandAssembly": 13000, "construction.expandColdDimsToHot": 800,
                  "law.input-to-hot-mass": 6500, "law.input-to-hot-mass.tight": 6500, "law.input-to-hot-mass.loose": 100, "law.fluid-density-untouched": 13000,
@@ -617,7 +617,19 @@ def gen_prescribed(rng, a, extreme=False):
         lo, hi = 0.5, 2.0
     u = lambda: rng.uniform(lo, hi)  # noqa: E731
     comps, fs = [], []
-    if mode == "assembly":
+    bl_ = list(a)
+    if extreme and len(bl_) >= 3 and rng.random() < .6:
+        # squeeze: one component of a block (mostly its target) grows by more than the height of the block above while the rest of the
+        # block stays - a block above that is stacked on one of the others then cannot keep a positive height: a refusal is the only right outcome
+        mode = "squeeze"
+        ib_ = rng.randrange(len(bl_) - 2)
+        grow = 1.0 + rng.uniform(1.05, 1.6) * bl_[ib_ + 1].getHeight() / bl_[ib_].getHeight()
+        sol = [c for c in bl_[ib_] if is_solid(c)]
+        tn = bl_[ib_].p.axialExpTargetComponent
+        pick = next((c for c in sol if c.name == tn), None) if rng.random() < .8 else None
+        pick = pick or (rng.choice(sol) if sol else None)
+        comps, fs = [c for _, c in sb], [grow if c is pick else 1.0 for _, c in sb]
+    elif mode == "assembly":
         f = u()
         comps, fs = [c for _, c in sb], [f] * len(sb)
     elif mode == "block":
@@ -732,6 +744,7 @@ def judge_negative_height_refusal(rec, a, ab, msg, w):
     elif neg[0] == len(pre["blocks"]) - 1:
         rec.reject("ArithmeticError: top block cannot absorb the growth (negative height; assembly discarded)")
     else:
+        rec.hit("refusal.negative-height-of-an-intermediate-block")
         rec.reject("ArithmeticError: negative height of an intermediate block under differential growth (its target is stacked on an offset component; assembly discarded)")
 
 
@@ -912,7 +925,7 @@ def run_program(rec, rng, drv):
         r = rng.random()
         setFuel = rng.random() < .7
         if r < .30:
-            mode, comps, fs, _ = gen_prescribed(rng, a, extreme=rng.random() < .03)
+            mode, comps, fs, _ = gen_prescribed(rng, a, extreme=rng.random() < .10)
             drv.prescribed(rng, comps, fs, mode, ch=ch_shared, setFuel=setFuel)
             k += 1
         elif r < .50:
